@@ -112,6 +112,32 @@ def _nw_matrix_max(s1: str, s2: str) -> bool:
     return value == _best(s1, s2, _sub_matrix, 1) and _consistent(value, paths, s1, s2, _sub_matrix, 1, None)
 
 
+def _sub_directed(a, b):
+    """direction dependent scores: (first sequence symbol, second sequence symbol)"""
+    if a == 'A' and b == 'A':
+        return 3
+    if a == 'A' and b == 'B':
+        return -2
+    if a == 'B' and b == 'A':
+        return 1
+    return 1 if a == b else -1
+
+
+def _directed_fn(a, b):
+    # substitution callables return (cost, gap cost); costs are negated scores because dp minimises
+    return -_sub_directed(a, b), 1
+
+
+def _nw_directed(s1: str, s2: str) -> bool:
+    """
+    user supplied substitution callable whose score depends on the direction
+    pre: _pre(s1, s2)
+    post: _
+    """
+    value, scores, paths = alignment.needleman_wunsch(s1, s2, substitution=_directed_fn)
+    return value == _best(s1, s2, _sub_directed, 1) and _consistent(value, paths, s1, s2, _sub_directed, 1, None)
+
+
 def _nw_matrix_min(s1: str, s2: str) -> bool:
     """
     opt='min': the dictionary holds costs; needleman_wunsch still returns the negated minimum
